@@ -47,7 +47,7 @@ _p("C16", modules=["quic_pkn", "quic_session_c"], level="proof",
    design_ref="DESIGN.md 4 C16", explanation="", assumptions=[], trusted_base=["cryptography AEAD objects: decrypt(nonce, ciphertext, aad) - recorder stand-in"],
    not_under_contract=["QuicSession.decrypt_packet (call site: passes the result to QuicDecryptor.decrypt)"])
 
-_p("C11", modules=["checksums", "main_run"], level="proof",
+_p("C11", modules=["checksums", "main_run", "packet_c"], level="proof",
    level_text="ones_complement_checksum is proved (two loop invariants + variant) to return 0xFFFF - fold(sum16(pad(a))) for arrays of any length without "
               "raising; calculate_checksum_tcp/udp are proved, for IPv4 and IPv6, any segment length and any checksum value, to return True exactly when the "
               "RFC 1071 receiver rule accepts pseudo-header ++ segment, with the pseudo-header checked field by field against RFC 793/768/8200; the two "
@@ -125,7 +125,7 @@ _p("C06", modules=["tcp_output", "quic_output", "framing", "framing_unbounded", 
    composition_assumptions=["concatenating per-record frame groups whose first sequence number equals 1 + bytes sent before yields gap-free, non-overlapping sequence space per direction"],
    not_under_contract=["main.run writer loop (bytes(buf), ts) -> dpkt (covered by the run() contracts of C18/C11 when built)"])
 
-_p("C07", modules=["tcp_output", "quic_output", "framing", "framing_unbounded", "ports", "robustness"], level="other",
+_p("C07", modules=["tcp_output", "quic_output", "framing", "framing_unbounded", "ports", "robustness", "packet_c", "main_run"], level="other",
    technique="contract-based deductive verification (pyvc) + one bounded stand-in",
    level_text="Proved on the real bodies: every frame the TLS builder emits is oriented sender->receiver with the session's MACs, IPs (IP version as the session's) and "
               "ports, the client port unchanged (tcp_out.* orientation clauses, all 22 scapy constructions); data frame j of a record carries the timestamp of the j-th packet "
@@ -140,7 +140,7 @@ _p("C07", modules=["tcp_output", "quic_output", "framing", "framing_unbounded", 
    trusted_base=["scapy layer constructors", "dpkt readers/writers (timestamp resolution)"], bounded=BOUNDED_FRAMING,
    not_under_contract=["dpkt_dsb.Reader timestamp arithmetic (C12)"])
 
-_p("C05", modules=["framing", "framing_unbounded", "framing_history", "main_run", "prefix"], level="other",
+_p("C05", modules=["framing", "framing_unbounded", "framing_history", "main_run", "prefix", "ports"], level="other",
    technique="contract-based deductive verification: unbounded loop contract (four invariants, two variants, quantifier-free VCs over spec-function lists) for the framing "
              "functions + unbounded dedupe contract; the capture-order history is a bounded stand-in",
    level_text="UNBOUNDED (any number of buffered segments, any payloads, any number of records): extract_server_buf / extract_client_buf release records iff the sorted buffer is one "
@@ -194,7 +194,7 @@ _p("C18", modules=["main_run", "demux", "keylog", "keylog_unbounded"], level="ot
    assumptions=["scapy and dpkt serialise deterministically"], trusted_base=["dpkt.pcapng.Writer", "scapy serialiser"],
    not_under_contract=["set_logger (log output is not part of the export)"])
 
-_p("C04", modules=["demux", "ports", "keylog", "keylog_unbounded", "framing"], level="other",
+_p("C04", modules=["demux", "ports", "keylog", "keylog_unbounded", "framing", "packet_c"], level="other",
    technique="contract-based deductive verification (routing contracts, exact-match contract) + syntactic frame obligations",
    level_text="Proved: matches_session / matches_session_dgram hold iff the packet's 4-tuple equals the session's in one of the two directions (IPv4 and IPv6); main.handle_packet "
               "hands a packet to the first matching session only and creates a session only if none matches; main.handle_quic_packet hands a datagram to exactly one session - "
@@ -248,7 +248,7 @@ _p("C03", modules=["robustness", "demux", "ports", "quic_output", "main_run", "q
    bounded=[{"function": "QuicSession.set_tls_decryptors (key-state invariant)", "bound": "each of the five QUIC-relevant labels at most once per connection (all 32 subsets), one foreign label", "counted_as": "bounded in the multiplicity of labels, unbounded in all values"}],
    not_under_contract=["extract_quic_packet in the QUICK tier (thorough only)"])
 
-_p("C01", modules=["record_protection", "framing", "framing_unbounded", "framing_history", "keys", "cipher_suites", "tcp_output", "robustness", "metadata", "compose_tls"], level="other",
+_p("C01", modules=["record_protection", "framing", "framing_unbounded", "framing_history", "keys", "cipher_suites", "tcp_output", "robustness", "metadata", "compose_tls", "ports"], level="other",
    technique="contract-based deductive verification of every link of the TLS pipeline (per-function contracts; primitives uninterpreted); composition on paper",
    level_text="The pipeline is decomposed into links and each link's obligation is discharged on the real code: framing (records released by one extract call = frame(buffered stream), UNBOUNDED loop contract; capture-order history BOUNDED); ServerHello parsing "
               "(random, suite, compression, extension map incl. zero-length last extensions, version rule; bounded to 2 extensions); suite resolution (C14, exhaustive); key "
@@ -316,7 +316,7 @@ _p("C08", modules=["prefix", "framing", "framing_unbounded", "framing_history", 
    assumptions=UNBOUNDED_FRAMING_ASSUMPTIONS, trusted_base=[], bounded=BOUNDED_FRAMING, not_under_contract=[])
 
 
-_p("C12", modules=["container", "container_unbounded", "main_run"], level="other",
+_p("C12", modules=["container", "container_unbounded", "main_run", "packet_c"], level="other",
    technique="contract-based deductive verification: unbounded loop contract for Reader.__iter__ over a ghost block list; Reader.__init__ (section header, interface options) checked "
              "exhaustively within a stated bound over a byte-level file model; dpkt block classes as assumed records",
    level_text="UNBOUNDED (container.unbounded.iter: a file of ANY number of blocks, both byte orders): per block, Reader.__iter__ stands at the block's offset, yields exactly one "
